@@ -21,18 +21,18 @@ open ConjureVerif ConjureVerif.Data ConjureVerif.Wrap
 /-- the server deserializers of both formats are the wrapper chain with `UnknownFieldsBehavior`
     around the format's value behaviour; the client ones are not -/
 theorem gen_server_behaviors :
-    Gen.JsonDeServerSrc.bodies.lookup "de::Deserializer<'de> for &'amutServerDeserializer<R>::impl_deserialize_body!" = some "&'amutserde_json::Deserializer<R>,UnknownFieldsBehavior<ValueBehavior>" ∧
-    Gen.SmileDeServerSrc.bodies.lookup "de::Deserializer<'de> for &'amutServerDeserializer<'de,R>::impl_deserialize_body!" = some "&'amutserde_smile::Deserializer<'de,R>,UnknownFieldsBehavior<ValueBehavior>" ∧
-    Gen.JsonDeSrc.bodies.lookup "de::Deserializer<'de> for &'amutClientDeserializer<R>::impl_deserialize_body!" = some "&'amutserde_json::Deserializer<R>,ValueBehavior" ∧
-    Gen.SmileDeClientSrc.bodies.lookup "de::Deserializer<'de> for &'amutClientDeserializer<'de,R>::impl_deserialize_body!" = some "&'amutserde_smile::Deserializer<'de,R>,ValueBehavior" := by
+    Gen.JsonDeServerSrc.hashes.lookup "de::Deserializer<'de> for &'amutServerDeserializer<R>::impl_deserialize_body!" = some 6916776558792606862 /- "&'amutserde_json::Deserializer<R>,UnknownFieldsBehavior<ValueBehavior>" -/ ∧
+    Gen.SmileDeServerSrc.hashes.lookup "de::Deserializer<'de> for &'amutServerDeserializer<'de,R>::impl_deserialize_body!" = some 3095571778591537364 /- "&'amutserde_smile::Deserializer<'de,R>,UnknownFieldsBehavior<ValueBehavior>" -/ ∧
+    Gen.JsonDeSrc.hashes.lookup "de::Deserializer<'de> for &'amutClientDeserializer<R>::impl_deserialize_body!" = some 14994026435428837345 /- "&'amutserde_json::Deserializer<R>,ValueBehavior" -/ ∧
+    Gen.SmileDeClientSrc.hashes.lookup "de::Deserializer<'de> for &'amutClientDeserializer<'de,R>::impl_deserialize_body!" = some 16925310013538528895 /- "&'amutserde_smile::Deserializer<'de,R>,ValueBehavior" -/ := by
   decide +kernel
 
 /-- `UnknownFieldsBehavior`: struct deserialization is intercepted, the current key is recorded, and
     a request to ignore a value becomes `unknown_field(key)`; keys use the same behaviour -/
 theorem gen_unknown_fields_behavior :
-    Gen.UnknownFieldsSrc.bodies.lookup "Behavior for UnknownFieldsBehavior<B>::deserialize_struct" = some "{B::deserialize_struct(de,name,fields,DelegatingVisitor::new(StructVisitor{fields},visitor),)}" ∧
-    Gen.UnknownFieldsSrc.bodies.lookup "Visitor2<'de,V> for StructVisitor::visit_map" = some "{visitor.visit_map(StructMapAccess{map,fields:self.fields,key:None,})}" ∧
-    Gen.UnknownFieldsSrc.bodies.lookup "Deserializer2<'de,D> for ValueDeserializer<'de,'_>::deserialize_ignored_any" = some "{letkey=matchself.key{Some(key)=>&**key,None=>\"<unknown>\",};Err(Error::unknown_field(key,self.fields))}" := by
+    Gen.UnknownFieldsSrc.hashes.lookup "Behavior for UnknownFieldsBehavior<B>::deserialize_struct" = some 12582298749013127255 /- "{B::deserialize_struct(de,name,fields,DelegatingVisitor::new(StructVisitor{fields},visitor),)}" -/ ∧
+    Gen.UnknownFieldsSrc.hashes.lookup "Visitor2<'de,V> for StructVisitor::visit_map" = some 16346528810062829712 /- "{visitor.visit_map(StructMapAccess{map,fields:self.fields,key:None,})}" -/ ∧
+    Gen.UnknownFieldsSrc.hashes.lookup "Deserializer2<'de,D> for ValueDeserializer<'de,'_>::deserialize_ignored_any" = some 9190212375268845044 /- "{letkey=matchself.key{Some(key)=>&**key,None=>\"<unknown>\",};Err(Error::unknown_field(key,self.fields))}" -/ := by
   decide +kernel
 
 /-- the wrapper keeps the behaviour alive below every container (shared with C01) -/
